@@ -11,49 +11,57 @@ CFG = {"read": True, "nonnode": True, "extras": True}
 
 def configs(tier):
     out = []
+    quick = tier == "quick"
+
+    def add(**kw):
+        kw.setdefault("judge", "c01")
+        kw.setdefault("hidden", False)
+        kw.setdefault("d", 0)
+        out.append(kw)
+
     for a in (0, 1):
         for kind in KINDS:
-            if tier == "quick" and kind not in ("mixin", "light", "cross") and KINDS.index(kind) % 2 != a:
-                continue  # quick: the other classes alternate between the two assertion settings
-            if tier == "quick":
-                deep = (kind, a) in (("mixin", 0), ("light", 1))
-                out.append(dict(kind=kind, n=3, cfg=dict(CFG), hidden=kind in ("mixin", "light", "cross"), d=2 if deep else 1,
-                                persistent=P2, assertions=a, judge="c01"))
-                if kind in ("mixin", "light", "cross") and a == 1:
-                    out.append(dict(kind=kind, n=4, cfg=dict(CFG, extras=False), hidden=False, d=0 if kind == "light" else 1,
-                                    persistent=P2, assertions=a, judge="c01"))
+            main = kind in ("mixin", "light", "cross")
+            if not main and KINDS.index(kind) % 2 != a:
+                continue  # the other classes alternate between the two assertion settings
+            deep = (kind, a) in (("mixin", 0), ("light", 1))
+            if quick:
+                add(kind=kind, n=3, cfg=dict(CFG), hidden=main, d=2 if deep else 1, persistent=P2, assertions=a)
+                if main and a == 1:
+                    add(kind=kind, n=4, cfg=dict(CFG, extras=False), d=0 if kind == "light" else 1, persistent=P2, assertions=a)
             else:
-                out.append(dict(kind=kind, n=3, cfg=dict(CFG), hidden=True, d=3, persistent=P2, assertions=a, judge="c01"))
-                out.append(dict(kind=kind, n=4, cfg=dict(CFG), hidden=kind in ("mixin", "light"), d=2, persistent=P2,
-                                assertions=a, judge="c01"))
+                add(kind=kind, n=3, cfg=dict(CFG), hidden=True, d=3 if deep else 2, persistent=P2, assertions=a)
+                if main:
+                    add(kind=kind, n=4, cfg=dict(CFG), hidden=deep, d=2 if deep else 1, persistent=P2, assertions=a)
+                else:
+                    add(kind=kind, n=4, cfg=dict(CFG, extras=False), d=1, persistent=P2, assertions=a)
         # persistent vetoes of the children bracket hooks recurse without bound in the current roll-back
         # code: explored at N=3 under a lowered recursion limit (DESIGN 2.1)
         for kind in ("mixin", "light"):
-            out.append(dict(kind=kind, n=3, cfg=dict(CFG, extras=False), hidden=False, d=0, persistent=P4, assertions=a,
-                            judge="c01", reclimit=120, name="%s N=3 persistent bracket-hook vetoes (reclimit 120) A=%d" % (kind, a)))
-        for kind in (("mixin", "light")[a:a + 1] if tier == "quick" else ("mixin", "light")):
-            out.append(dict(kind=kind, n=3, cfg=dict(CFG, extras=False, read=False), hidden=False, d=0, assertions=a, judge="c01",
-                            name="%s N=3 two-step: aborted call, then any call A=%d" % (kind, a),
-                            two_step=dict(d1=1, persistent1=P2, d2=0 if tier == "quick" else 1, persistent2=() if tier == "quick" else P2,
-                                          L=2 if tier == "quick" else 3)))
+            add(kind=kind, n=3, cfg=dict(CFG, extras=False), persistent=P4, assertions=a, reclimit=120,
+                name="%s N=3 persistent bracket-hook vetoes (reclimit 120) A=%d" % (kind, a))
+        # histories in which an earlier call was aborted by a hook
+        for kind in (("mixin", "light")[a:a + 1] if quick else ("mixin", "light")):
+            add(kind=kind, n=3, cfg=dict(CFG, extras=False, read=False), assertions=a,
+                name="%s N=3 two-step: aborted call, then any call A=%d" % (kind, a),
+                two_step=dict(d1=1, persistent1=P2, d2=0 if quick else 1, persistent2=() if quick else P2, L=2 if quick else 3))
         if a == 0:
             # "any sequence of parent assignments" includes one issued from inside a hook: at every hook invocation the
-            # hook detaches some node instead of returning (with assertions off: the internal assertions are written for
+            # hook detaches some node instead of returning (assertions off: the internal assertions are written for
             # hooks that do not touch the tree)
-            for kind in ("mixin", "light") + (("node", "symlink") if tier == "thorough" else ()):
-                out.append(dict(kind=kind, n=3, cfg=dict(CFG, extras=False, read=False), hidden=False, d=0, assertions=0, judge="c01",
-                                reenter=True, name="%s N=3 hooks that detach a node re-entrantly A=0" % kind))
-            out.append(dict(kind="mixin", n=4, cfg=dict(CFG, extras=False, read=False, nonnode=False, L=2 if tier == "quick" else 4),
-                            hidden=False, d=0, assertions=0, judge="c01", reenter=True,
-                            name="mixin N=4 hooks that detach a node re-entrantly A=0"))
-        # the class of the exception a hook raises is part of the alphabet (TreeError / LoopError subclasses)
-        for kind, fl in (("mixin", "tree"), ("light", "loop")) if tier == "quick" else [(k, f) for k in ("mixin", "light", "node") for f in ("tree", "loop", "value")]:
-            out.append(dict(kind=kind, n=3, cfg=dict(CFG, extras=False), hidden=False, d=1 if tier == "quick" else 2, persistent=P2,
-                            assertions=a, judge="c01", flavour=fl))
-        if tier == "thorough":
-            for kind in ("mixin", "light"):
-                out.append(dict(kind=kind, n=5, cfg=dict(CFG, extras=False, L=3), hidden=False, d=1, persistent=P2,
-                                assertions=a, judge="c01"))
+            for kind in ("mixin", "light") + (() if quick else ("node", "symlink", "trap:light:eq")):
+                add(kind=kind, n=3, cfg=dict(CFG, extras=False, read=False), assertions=0, reenter=True,
+                    name="%s N=3 hooks that detach a node re-entrantly A=0" % kind)
+            for kind in ("mixin",) if quick else ("mixin", "light"):
+                add(kind=kind, n=4, cfg=dict(CFG, extras=False, read=False, nonnode=False, L=2 if quick else 4), assertions=0,
+                    reenter=True, name="%s N=4 hooks that detach a node re-entrantly A=0" % kind)
+        # the class of the exception a hook raises is part of the alphabet (TreeError / LoopError subclasses ...)
+        flav = (("mixin", "tree"), ("light", "loop")) if quick else [(k, f) for k in ("mixin", "light", "node") for f in ("tree", "loop", "value", "attr")]
+        for kind, fl in flav:
+            add(kind=kind, n=3, cfg=dict(CFG, extras=False), d=1 if quick else 2, persistent=P2, assertions=a, flavour=fl)
+        if not quick:
+            add(kind=("mixin", "light")[a], n=5, cfg=dict(CFG, extras=False, L=3), d=1, persistent=P2, assertions=a)
+            add(kind=("light", "mixin")[a], n=5, cfg=dict(CFG, extras=False, L=4), d=0, assertions=a)
     return out
 
 
